@@ -574,7 +574,9 @@ fn mixed_op(p: &mut Prng, sw: &Swarm, w: usize, db: usize, signed: bool, shape_w
                     // total byte size just below / at / above a power-of-two boundary (chunked fills)
                     let b = [255usize, 256, 257, 511, 512, 513, 1023, 1024, 1025, 4095, 4096, 4097, 65535, 65536, 65537][p.below(15) as usize];
                     let l = (b + w - 1) / w;
-                    if p.chance(1, 400) {
+                    if p.chance(1, 400) && w >= 16 {
+                        // (elements of at least 16 bytes: the harness keeps every element as its own byte vector, and tens of millions
+                        // of one-byte elements would cost gigabytes per fill)
                         // tens of megabytes (a cap on the size of one request to the operating system's entropy call)
                         let gb = [(1usize << 24) - 1, 1 << 24, (1 << 25) - 1, 1 << 25, (1 << 25) + 1, 3 << 24][p.below(6) as usize];
                         (gb + w - 1) / w + p.below(3) as usize
